@@ -82,8 +82,11 @@ impl<T> Entry<T> {
         F: FnOnce(&mut T),
     {
         let node = &mut *self.0.as_ptr();
-        let data = node.value.as_mut().expect("Node value is None");
-        f(data);
+        // a handle cannot know whether the consumer has popped its entry in the meantime (a timer that fires while the
+        // operation it belongs to is being completed): then there is nothing left to change, the value was moved out
+        if let Some(data) = node.value.as_mut() {
+            f(data);
+        }
     }
 
     /// judge if the node is still linked in the list
